@@ -103,6 +103,7 @@ Proof. exact upstream_long_key_renamed. Qed.
 Theorem C16_fixed_rejects_witnesses :
   accepts gen_params "END" "x" = false /\ accepts gen_params "HISTORY" "h" = false /\ accepts gen_params "CONTINUE" "c" = false /\
   accepts gen_params "" "b" = false /\ accepts gen_params "PCOUNT" "0" = false /\ accepts gen_params "GCOUNT" "1" = false /\
+  accepts gen_params "EXTNAME" "KNOTS0" = false /\ accepts gen_params "HDUNAME" "EXTENTS" = false /\ accepts gen_params "EXTNAMES" "KNOTS0" = true /\
   accepts gen_params (repeat_char "K"%char 68) "1.5" = false /\ accepts gen_params (repeat_char "K"%char 67) "" = false /\
   accepts gen_params "HIERARCH ABC DEF" "v" = false /\ accepts gen_params " LEADING SPACE" "w" = false /\
   accepts gen_params "Q" (repeat_char quote 40) = false /\
